@@ -30,6 +30,7 @@ impl Bitstr {
 //@use bitstr.fns Bitstr::invert assumed
 //@use bitstr.fns Bitstr::slice assumed
 //@use bitstr.fns Bitstr::to_hex_string assumed
+//@use bitstr.fns Bitstr::from_hex_str assumed
 //@use bitstr.fns Bitstr::eq_with assumed
 //@use bitstr.fns Bitstr::iter8 assumed
 //@use bitstr.fns Bitstr::new assumed
